@@ -288,15 +288,10 @@ Definition shells_at_true (st : state) (lv : Z) : list shell :=
 
 (* get_shells_at_level(level, atom_mask): resolution of -1 / None / levels not generated *)
 Definition resolve_level (o : opts) (st : state) (req : option Z) : Z * option Z :=
-  (* returns (true_level, label) *)
+  (* returns (true_level, label); the label handed to the fingerprint is the request itself (None and -1 included) *)
   let unresolved := match req with None => true | Some l => (l =? -1) || negb ((0 <=? l) && (l <=? st_k st)) end in
-  if unresolved then
-    let label := match req with
-                 | None => Some (if o_level o =? -1 then st_k st else o_level o)
-                 | Some l => if l =? -1 then Some (if o_level o =? -1 then st_k st else o_level o) else Some l
-                 end in
-    (st_k st, label)
-  else match req with Some l => (l, Some l) | None => (st_k st, None) end.
+  if unresolved then (st_k st, req)
+  else match req with Some l => (l, req) | None => (st_k st, req) end.
 
 Definition disjointb (a b : list Z) : bool := forallb (fun x => negb (zmem x b)) a.
 
